@@ -372,3 +372,14 @@ func ChildCoverArgs() []string {
 	n := atomic.AddInt32(&childCoverN, 1)
 	return []string{fmt.Sprintf("-test.coverprofile=%s.child%d.%d.cover", dir, os.Getpid(), n)}
 }
+
+// KnownHits returns how many violations matched an entry of known_findings.json so far.
+func (r *Run) KnownHits() int {
+	r.mu.Lock()
+	defer r.mu.Unlock()
+	n := 0
+	for _, v := range r.knownHit {
+		n += v
+	}
+	return n
+}
